@@ -264,6 +264,16 @@ def check_case(case):
     for op in case.get('pre') or []:
         mutate(obj, op, labels)
     route = case['route']
+    earlier = []
+    for j in range(case.get('copies_before', 0)):
+        # the object was copied before (and those copies went their own way): the copy under test is not the first one
+        e = attempt(ROUTES[(route + j) % len(ROUTES)], obj)
+        if e.ok:
+            for op in (case.get('post') or [])[:2]:
+                mutate(e.value, op, labels)
+            earlier.append(e.value)
+    if earlier:
+        res.tag('copy:not-the-first-copy')
     out = attempt(ROUTES[route], obj)
     detail = f'{kind} span {labels!r} pre={case.get("pre")} route={ROUTE_NAMES[route]}'
     if not out.ok:
@@ -279,6 +289,9 @@ def check_case(case):
         return res
     for p, q in shared_objects(obj, cp):
         res.fail(f'copy/shared-object/{p.split("[")[0].lstrip(".")}', f'{detail}: original and copy share {p} / {q}')
+    for e in earlier:
+        for p, q in shared_objects(e, cp):
+            res.fail(f'copy/shared-with-earlier-copy/{p.split("[")[0].lstrip(".")}', f'{detail}: an earlier copy and this copy share {p} / {q}')
     mutated, other = (cp, obj) if case['side'] == 'copy' else (obj, cp)
     if case.get('values_both') and hasattr(obj, 'values'):
         # the caller hands one and the same array to both objects (the setter documents element-by-element replacement)
@@ -363,6 +376,7 @@ def strategy(mode):
                 case['route'] = draw(st.integers(0, 2))
                 case['side'] = draw(st.sampled_from(['copy', 'orig']))
                 case['values_both'] = draw(st.sampled_from([False, False, True]))
+                case['copies_before'] = draw(st.sampled_from([0, 0, 0, 1, 2]))
                 if draw(st.integers(0, 4)) == 0:
                     case['set_both'] = [draw(st.integers(0, 2)), draw(st.sampled_from(['buffer', 'ndarray', 'list']))]
                 if draw(st.integers(0, 3)) == 0:
@@ -399,6 +413,8 @@ def gen_fixed():
                             if op[0] in ('inplace', 'solve', 'setattr'):
                                 yield {'mode': 'copy', 'kind': kind, 'span': desc, 'pre': [], 'route': route, 'side': side,
                                        'values_both': True, 'post': [op]}
+                                yield {'mode': 'copy', 'kind': kind, 'span': desc, 'pre': [], 'route': route, 'side': side,
+                                       'copies_before': 1 + route % 2, 'post': [op]}
                                 for how in ('buffer', 'ndarray', 'list'):
                                     yield {'mode': 'copy', 'kind': kind, 'span': desc, 'pre': [], 'route': route, 'side': side,
                                            'set_both': [0, how], 'post': [['inplace', ['var', 0], 1, 9]]}
